@@ -878,7 +878,7 @@ struct Ex {
     dropped: bool,
 }
 
-fn run_c17(case: &C17Case, cut: usize, o: &mut Outcome) -> Option<Failure> {
+pub fn run_c17(case: &C17Case, cut: usize, o: &mut Outcome) -> Option<Failure> {
     let plan = WritePlan::default();
     let e: Option<u32> = match case.expiry {
         Expiry::Zero => Some(0),
